@@ -24,13 +24,13 @@ TIERS = {
     "thorough": {"shards": 16, "cases": 60000, "timeout": 1200},
 }
 FLOORS = {"quick": {"cases_with_debug_logging": 750,
-                    "distinct_nontrivial": 500, "foreign_char_rejections": 300,
+                    "distinct_nontrivial": 500, "foreign_char_rejections": 300, "look_alike_char_rejections": 300,
                     "overflow_rejections": 100, "roundtrips": 5000, "wrong_length_rejections": 300,
                     "yields_injected_inside_conversions": 20000,
                     "decorated_short_rejections": 300, "junk_around_valid_rejections": 600,
                     "case_variant_rejections": 300, "damaged_canonical_rejections": 500},
           "thorough": {"cases_with_debug_logging": 3000,
-                       "distinct_nontrivial": 5000, "foreign_char_rejections": 3000,
+                       "distinct_nontrivial": 5000, "foreign_char_rejections": 3000, "look_alike_char_rejections": 3000,
                        "overflow_rejections": 1000, "roundtrips": 100000, "wrong_length_rejections": 10000,
                        "yields_injected_inside_conversions": 200000,
                        "decorated_short_rejections": 10000, "junk_around_valid_rejections": 20000,
@@ -150,6 +150,20 @@ def check_string(ctx, s, alpha, klass):
 FOREIGN = "01OIl-_ {}éЖ中\n\x00"
 
 
+def look_alike(ch, rng):
+    """a character that Unicode compatibility normalisation (NFKC) maps to `ch`: full-width, mathematical bold, ..."""
+    import unicodedata
+    cands = [chr(ord(ch) - 0x21 + 0xFF01)]
+    if "A" <= ch <= "Z":
+        cands += [chr(0x1D400 + ord(ch) - ord("A")), chr(0x24B6 + ord(ch) - ord("A"))]
+    elif "a" <= ch <= "z":
+        cands += [chr(0x1D41A + ord(ch) - ord("a")), chr(0x24D0 + ord(ch) - ord("a"))]
+    elif "0" <= ch <= "9":
+        cands += [chr(0x1D7CE + ord(ch) - ord("0")), chr(0x2460 + ord(ch) - ord("1")) if ch != "0" else chr(0x24EA)]
+    cands = [c for c in cands if c != ch and unicodedata.normalize("NFKC", c) == ch]
+    return rng.choice(cands) if cands else "\uff0d"
+
+
 def one_case(ctx, rng, alpha, seen, i):
     ctx.evaluated()
     r = i % 8
@@ -164,6 +178,17 @@ def one_case(ctx, rng, alpha, seen, i):
         check_int(ctx, n, alpha, seen, "padded")
     elif r in (2, 3):
         check_int(ctx, rng.getrandbits(128), alpha, seen, "random")
+    elif r == 4 and i % 16 == 4:  # characters that only LOOK like alphabet characters (compatibility forms)
+        s = list(model_encode(rng.getrandbits(128), alpha))
+        k = rng.randrange(3)
+        if k == 0:
+            s = [look_alike(ch, rng) for ch in s]                    # every character in its full-width form
+        elif k == 1:
+            pos = rng.randrange(22)
+            s[pos] = look_alike(s[pos], rng)                          # one of them
+        else:
+            s = ["\ufb01"] + s[2:] if rng.random() < 0.5 else s[:20] + ["\u01c6"]    # a ligature standing for two letters
+        check_string(ctx, "".join(s), alpha, "look_alike_char")
     elif r == 4:  # foreign character
         s = list(model_encode(rng.getrandbits(128), alpha))
         pos = rng.randrange(22)
